@@ -8,7 +8,7 @@ ID = 'C04'
 HARNESS_BIN = 'c04'
 RUN_MODULE = 'Run.C04'
 COQ_EXTRA = []
-THEOREMS = ['C04_lookup_sound', 'C04_input_digest_sound', 'C04_pp_key_parts_sound', 'C04_add_result_all_or_nothing', 'C04_lookup_sound_window', 'C04_no_stat_for_new_files', 'C04_marker_recorded', 'C04_cwd_in_pp_key', 'C04_record_sound', 'C04_record_instant_sound', 'C04_scan_exact', 'C04_scan_no_false_negative',
+THEOREMS = ['C04_lookup_sound', 'C04_input_digest_sound', 'C04_pp_key_parts_sound', 'C04_add_result_all_or_nothing', 'C04_lookup_sound_window', 'C04_no_stat_for_new_files', 'C04_timestamp_injective', 'C04_marker_recorded', 'C04_cwd_in_pp_key', 'C04_record_sound', 'C04_record_instant_sound', 'C04_scan_exact', 'C04_scan_no_false_negative',
             'C04_scan_chunk_independent', 'C04_digest_chunk_independent', 'C04_mode_equivalence', 'C04_markers_complete']
 ASSUMPTIONS = [
     'BLAKE3 is modelled as an injective function H on file contents and an injective function HT on the '
@@ -1091,6 +1091,81 @@ def shrink_linemarker(case):
         yield [ci, start, date, cwd, inp, text, files[:i] + files[i + 1:]]
 
 
+# ------------------------------------------------------------------ timestamp (Timestamp::from(SystemTime), also before 1970)
+
+TS_BASE = 1000000 * 10**9      # instants are given in ns after 1_000_000 s BEFORE the Unix epoch
+
+
+def gen_timestamp(rng, tier):
+    n = 200 if tier == 'quick' else 3000
+    out = [[TS_BASE - 4300000000, TS_BASE - 4000000000, TS_BASE - 5000000000, TS_BASE - 4700000000, TS_BASE - 1, TS_BASE,
+            TS_BASE + 1, TS_BASE - 10**9, TS_BASE - 10**9 - 1, 0, 1, TS_BASE + 4300000000]]
+    for _ in range(n):
+        xs = []
+        for _ in range(rng.range(2, 8)):
+            k = rng.weighted([('pre', 5), ('pre_whole', 3), ('post', 3), ('near', 3), ('dup', 2)])
+            if k == 'pre':
+                xs.append(rng.below(TS_BASE))
+            elif k == 'pre_whole':
+                xs.append(rng.below(1000000) * 10**9)
+            elif k == 'post':
+                xs.append(TS_BASE + rng.below(10**15))
+            elif k == 'near':
+                xs.append(TS_BASE - 3 * 10**9 + rng.below(6 * 10**9))
+            elif xs:
+                xs.append(rng.choice(xs))
+        out.append(xs or [0])
+    return out
+
+
+def mon_timestamp(case, out):
+    """distinct instants (also pre-1970, with and without nanoseconds) have distinct time stamps and distinct
+    __TIMESTAMP__ digests; the time stamp is floor seconds + nanoseconds"""
+    if not isinstance(out, list) or len(out) != len(case):
+        return ['malformed implementation output %r' % (out,)]
+    vs = []
+    for i, (x, row) in enumerate(zip(case, out)):
+        neg, secs, nanos, cls = row
+        t = x - TS_BASE
+        got = (-secs if neg else secs) * 10**9 + nanos
+        if got != t or not (0 <= nanos < 10**9):
+            vs.append('instant %d ns from the epoch is converted to Timestamp(%s%d s, %d ns) = %d ns' % (t, '-' if neg else '', secs, nanos, got))
+        for j in range(i):
+            same = out[j][3] == cls or (out[j][3] == j and cls == j)
+            if (out[j][3] if out[j][3] != j else j) == cls and case[j] != x:
+                vs.append('a header mentioning __TIMESTAMP__ gets the same digest for mtime %d ns and %d ns from the epoch: a '
+                          'touch between them is answered with the stale result' % (case[j] - TS_BASE, t))
+                break
+    return vs[:3]
+
+
+# ------------------------------------------------------------------ manyinc (the number of includes of ONE result)
+
+def gen_manyinc(rng, tier):
+    ns = [9999, 10000, 10001, 10050] if tier == 'quick' else [1, 9999, 10000, 10001, 10002, 10050, 12000, 20001]
+    out = []
+    for n in ns:
+        out.append([n, n - 1])
+        if n > 10000:
+            out.append([n, 10000])
+    out.append([10001, 0])
+    return out
+
+
+def mon_manyinc(case, out):
+    n, edit = case
+    if not isinstance(out, list) or len(out) != 3:
+        return ['malformed implementation output %r' % (out,)]
+    stored, hit0, hit1 = out
+    vs = []
+    if stored not in (0, n):
+        vs.append('a result with %d include files was stored with %d of them: the others are never checked by a lookup' % (n, stored))
+    if hit1:
+        vs.append('%d include files recorded (%d stored); header number %d (in path order) was edited at the same size and the '
+                  'lookup still accepted the result' % (n, stored, edit))
+    return vs
+
+
 # ------------------------------------------------------------------ end to end (real server + gcc)
 
 E2E_CONFIGS = [9, 13, 25, 17, 29, 11]
@@ -1254,6 +1329,14 @@ def legs(tier):
             rule='PRNG texts over a 12-letter alphabet with planted patterns / near-patterns / NULs, split into reads '
                  'of 1..40 bytes in four size profiles (incl. the shape of the repaired S17 defect), plus regular-file chunkings with full '
                  '128 KiB reads and patterns on the boundaries; non-trivial = >=2 reads and a pattern present'),
+        Leg('timestamp', gen_timestamp, monitor=mon_timestamp,
+            rule='Timestamp::from(SystemTime) and include_file_digest of a __TIMESTAMP__ header on instants before and after '
+                 '1970 (whole seconds and with nanoseconds, around the epoch, duplicates): exact value vs the model '
+                 '(floor seconds, nanoseconds) and injectivity of the digest'),
+        Leg('manyinc', gen_manyinc, monitor=mon_manyinc, shards=6,
+            rule='ONE result with 9999 / 10000 / 10001 / 10050 distinct real header files through the real add_result and '
+                 'lookup_result_digest (around MAX_PREPROCESSOR_CACHE_FILE_INFO_ENTRIES): all of them are stored, and a '
+                 'same-size edit of the last / the 10001st / the first one is noticed'),
         Leg('ppkey', gen_ppkey, monitor=mon_ppkey, stats=stats_ppkey, shrink=shrink_ppkey, neighbours=neigh_ppkey,
             nontrivial=lambda case, out: len(case[1]) >= 2,
             rule='requests for one input path run through the real preprocessor_cache_entry_hash_key; the equality '
